@@ -240,8 +240,12 @@ impl Task {
 
         instrument!(compio_log::Level::TRACE,"Task::cancel", id = ?header.id, drop_result);
 
-        self.schedule();
+        // Publish the cancellation *before* the task is scheduled: the executor
+        // may run the task as soon as it is queued, and a run that does not see
+        // the flag polls the future, parks it again, and nothing would schedule
+        // it afterwards (the cancelled future would never be dropped).
         let state = header.state.set_cancelled();
+        self.schedule();
         if drop_result && state.has_result() {
             header.state.set_has_result::<Strong, false>();
             unsafe { (header.vtable.drop_future)(self.0, true) }
